@@ -78,6 +78,7 @@ type Interp struct {
 	cfg      *HarnessCfg
 	result   *HarnessResult
 	lastPanicPos string
+	fmtDepth int
 }
 
 func (in *Interp) fresh(prefix string, w int) *Term {
